@@ -149,6 +149,15 @@ CLAIMED = {
             "Trusted: Python call syntax; builder->constructor->field feeding computed by def-use. "
             "Not decided: black formatting, pickling, result equality after rebuild.",
             "DESIGN.md 6/C12"),
+    "C08": ("edge-sensitive may-carry dataflow of scratch columns over the statement CFG (stores under non-operator names vs del/drop/re-selection kills); guard-matched select-after-with_columns; pairwise twin clean-up rule; def-use of select terms from `using` (ast)",
+            "Structural necessary conditions of 'the result has exactly the declared columns': no Pandas step returns a frame that may "
+            "still carry a column stored under an internal (non-operator) name; Polars steps that add temporaries re-select "
+            "op.columns_produced() under the same guard and joins do so unconditionally; suffixed join twins are cleaned unless an "
+            "equal-named key pair; every generated SQL step's select terms derive from the requested column set, the top-level call "
+            "requests everything and select_columns orders terms by the declared selection.",
+            "Trusted: pandas/polars column semantics of del/drop/loc/select/merge; sub-results satisfy the property (induction over the DAG). "
+            "Not decided: column order where operators do not define it; zero-row corner cases; that declared == produced at run time.",
+            "DESIGN.md 6/C08"),
     "C27": ("def-use consumption of partition_by/order_by/reverse by each window realisation; flag partial evaluation; CFG effect ordering; index-clean typestate; per-term window coverage (ast)",
             "In Pandas, Polars and SQL the window is defined from all of partition_by, order_by and reverse with partition keys ahead "
             "of order keys and the right polarity; the sort precedes the windowed computation; Pandas captures positions before the "
